@@ -51,6 +51,11 @@ func (d *cStateDb) prepareByGoEthereum(rules ethparams.Rules, sender, coinbase c
 			// If it's a create-tx, the destination will be added inside evm.create
 		}
 		for _, addr := range precompiles {
+			if addr == (common.Address{}) {
+				// no precompile lives at the zero address; the list of custom precompiled contracts
+				// provided by the EVM starts with zero-valued entries, which must not be warmed up
+				continue
+			}
 			al.AddAddress(addr)
 		}
 		for _, el := range list {
